@@ -1052,11 +1052,12 @@ class StrategyBase(Node):
         """
         Close all child positions.
         """
-        # go right to base alloc
-        if self.fixed_income:
-            [c.transact(-c.position, update=False) for c in self._childrenv if c.position != 0]
-        else:
-            [c.allocate(-c.value, update=False) for c in self._childrenv if c.value != 0]
+        # close every child: securities are sold outright, sub-strategies are
+        # flattened themselves before their capital is taken back (allocating
+        # -value to a sub-strategy would only spread that amount over its
+        # children by weight, which does not close their positions exactly)
+        for child in list(self.children):
+            self.close(child, update=False)
 
         self.root.stale = True
 
